@@ -409,6 +409,9 @@ MONITORS = {
     "C13": lambda h: mon_ledger(h, True, True, only_kinds=("sendto", "sendoptto")),
     "C14": lambda h: mon_ledger(h, True, True, only_kinds=("trysend", "trysendopt", "trysendrt", "trysendoptrt")) + mon_c19(h),
     "C15": lambda h: mon_ledger(h, True, True, only_kinds=("mksend",)),
-    "C09": lambda h: mon_ledger(h, True, True) + mon_c02(h) + mon_c12(h),
+    # every guarantee is claimed unchanged across flavours: all the monitors apply
+    "C09": lambda h: mon_ledger(h, True, True) + mon_c02(h) + mon_c12(h) + mon_c10(h) + mon_c11(h) + mon_c08(h) + mon_c16(h),
     "C06": mon_c16,
+    # integrity of every payload class includes being moved exactly once (count-level on untagged classes such as ZSTs)
+    "C04": lambda h: mon_ledger(h, True, True),
 }
